@@ -351,7 +351,7 @@ func gen(g *zv.Gen) {
 		}
 		want, defined := rfcSCTInput(ts, et, x509c, ikh, tbs, ext)
 		p := defined && ver == 0 && lt == 0 && prim(verifier, want, sig)
-		g.Emitf("c16 vsct %s %d %d %d %d %d %s %d %d %s %s %s %s", verifier, b2i(p), ver, ts, hash, alg, hx(sig), lt, et, hx(x509c), hx(ikh), hx(tbs), hx(ext))
+		g.Emitf("c16 vsct %s %d %d %d %d %d %s %d %d %s %s %s %s %s", verifier, b2i(p), ver, ts, hash, alg, hx(sig), lt, et, hx(x509c), hx(ikh), hx(tbs), hx(ext), digestArg(want, defined && ver == 0 && lt == 0))
 	}
 	for i, n := 0, g.N(800, 15000); i < n; i++ {
 		signer := []string{"ec", "rsa"}[r.Intn(2)]
@@ -389,8 +389,9 @@ func gen(g *zv.Gen) {
 			}
 		}
 		p := ver == 0 && prim(verifier, rfcSTHInput(size, ts, root), sig)
-		g.Emitf("c16 vsth %s %d %d %d %d %s %d %d %s", verifier, b2i(p), ver, size, ts, hx(root), hash, alg, hx(sig))
+		g.Emitf("c16 vsth %s %d %d %d %d %s %d %d %s %s", verifier, b2i(p), ver, size, ts, hx(root), hash, alg, hx(sig), digestArg(rfcSTHInput(size, ts, root), true))
 	}
+	genMore(g)
 }
 
 func b2i(b bool) int {
